@@ -326,7 +326,7 @@ pub fn run(ctx: &Ctx) -> PropResult {
         }
         judge_date(rec, day, op, n);
     }));
-    wls.push(Workload::cases("offset_local_twins", ctx.count(4_000, 150_000), |rec, _, rng| super::localzone::twin_case(rec, rng, "C05", super::walk::Family::Months)));
+    wls.push(Workload::cases("offset_local_twins", ctx.count(4_000, 40_000), |rec, _, rng| super::localzone::twin_case(rec, rng, "C05", super::walk::Family::Months)));
     wls.push(Workload::cases("date_api_walks", ctx.count(20_000, 800_000), |rec, _, rng| super::walk::walk_date(rec, rng, "C05", super::walk::Family::Months)));
     wls.push(Workload::cases("api_walks", ctx.count(30_000, 1_500_000), |rec, _, rng| super::walk::walk(rec, rng, "C05", super::walk::Family::Months)));
     let out = run_workloads(ctx, wls);
